@@ -162,15 +162,20 @@ Fixpoint scan (reg : list bytes) (ex : bytes -> bool) (l : list bytes) (i ti : n
   end.
 
 (* nextServerToTry(current): new state, and the chosen (index, registered name) or None = nil *)
+(* serversToTry after the first `if len(p.serversToTry) == 0` *)
+Definition remembered (cfg : config) (vhost : bytes) (st : pstate) : list bytes :=
+  match cache st with [] => lookup_forced (clean vhost) (forced cfg) | c => c end.
+(* serversToTry after the second one (empty = `return nil` before the loop) *)
+Definition to_scan (cfg : config) (vhost : bytes) (st : pstate) : list bytes :=
+  match remembered cfg vhost st with [] => try_list cfg | c => c end.
+
 Definition next (cfg : config) (vhost : bytes) (reg : list bytes) (st : pstate) (cur : option bytes)
   : pstate * option (nat * bytes) :=
-  let c1 := match cache st with [] => lookup_forced (clean vhost) (forced cfg) | c => c end in
-  let c2 := match c1 with [] => try_list cfg | c => c end in
-  match c2 with
-  | [] => (mkP c1 (cursor st) (connected st) (inflight st), None)
-  | _ =>
-    let '(ti, r) := scan reg (excluded st cur) (skipn (cursor st) c2) (cursor st) (cursor st) in
-    (mkP c2 ti (connected st) (inflight st), r)
+  match to_scan cfg vhost st with
+  | [] => (mkP (remembered cfg vhost st) (cursor st) (connected st) (inflight st), None)
+  | c2 =>
+    let sr := scan reg (excluded st cur) (skipn (cursor st) c2) (cursor st) (cursor st) in
+    (mkP c2 (fst sr) (connected st) (inflight st), snd sr)
   end.
 
 (* the pure reading of DESIGN.md: choice for a fresh cache, explicit cursor and excluded servers *)
@@ -286,3 +291,54 @@ Definition removable_suffix (rest : bytes) : bool :=
     else if c =? 0 then true
     else starts3 rest
   end.
+
+(* ---------- kick result selection (switch.go: handleConnectionErr2 + handleKickEvent) ---------- *)
+
+Fixpoint run_state (cfg : config) (vhost : bytes) (st : pstate) (ops : list op) : pstate :=
+  match ops with
+  | [] => st
+  | o :: r => run_state cfg vhost (fst (step cfg vhost st o)) r
+  end.
+
+Inductive kick_result :=
+| KUnsafe                 (* !safe: Disconnect(friendlyReason) without an event *)
+| KDisconnect             (* DisconnectPlayerKickResult{Reason: friendlyReason} *)
+| KRedirect (s : bytes)   (* RedirectPlayerKickResult{Server: s} *)
+| KNotify.                (* NotifyKickResult{Message: friendlyReason}: kicked while connecting elsewhere *)
+
+(* servers are compared with RegisteredServerEqual (name and address); the harness gives every name one
+   address, so the name decides *)
+Definition kicked_from_current (conn : option bytes) (rs : bytes) : bool :=
+  match conn with None => true | Some c => beq_bytes c rs end.
+
+(* handleConnectionErr2(rs, _, friendlyReason, safe) followed by the state updates of handleKickEvent
+   (in-flight cleared; current server cleared when kicked from it). Result: the state and the initial
+   result carried by the KickedFromServerEvent. *)
+Definition kick (cfg : config) (vhost : bytes) (reg : list bytes) (st : pstate) (rs : bytes) (safe : bool)
+  : pstate * kick_result :=
+  if negb safe then (st, KUnsafe)
+  else if kicked_from_current (connected st) rs then
+    let nr := next cfg vhost reg st (Some rs) in
+    (mkP (cache (fst nr)) (cursor (fst nr)) None None,
+     match snd nr with None => KDisconnect | Some (_, s) => KRedirect s end)
+  else (mkP (cache st) (cursor st) (connected st) None, KNotify).
+
+Definition s_run (s : sstate) (ops : list op) : sstate := fold_left s_step ops s.
+
+(* tryIndex after the last observed operation (0 for the empty history) *)
+Fixpoint last_cursor_from (d : nat) (l : list obs) : nat :=
+  match l with [] => d | ob :: r => last_cursor_from (o_cursor ob) r end.
+Definition last_cursor (l : list obs) : nat := last_cursor_from 0 l.
+
+(* property clause for a kick from the current server (or with no current server): redirect to the
+   first eligible entry at or after the cursor, disconnect (with the kick reason) when there is none *)
+Definition holds_kick (cands : list bytes) (s : sstate) (prev : nat) (reg : list bytes) (rs : bytes)
+  (safe : bool) (got : kick_result) : bool :=
+  if safe && kicked_from_current (s_connected s) rs then
+    let ex := fun n => same (s_connected s) n || same (s_inflight s) n || same (Some rs) n in
+    match first_eligible reg ex cands 0 prev, got with
+    | Some (_, srv), KRedirect g => beq_bytes srv g
+    | None, KDisconnect => true
+    | _, _ => false
+    end
+  else true.
